@@ -241,6 +241,8 @@ def decode(method: str, props, data: bytes, outsize: int, password=None, padded:
                 if len(props) != 1 or props[0] > 40:
                     raise FormatError("lzma2: bad dictionary size property")
                 f = {"id": lzma.FILTER_LZMA2, "dict_size": lzma2_dict_size(props[0])}
+            if f["dict_size"] > 0x60000000:
+                raise Unsupported("%s: dictionary of %d bytes exceeds decoder limit" % (name, f["dict_size"]))
             d = lzma.LZMADecompressor(lzma.FORMAT_RAW, filters=[f])
             if name == "lzma":  # no end marker required: stop at the declared size
                 out = d.decompress(bytes(data), outsize) if outsize else b""
@@ -279,6 +281,10 @@ def decode(method: str, props, data: bytes, outsize: int, password=None, padded:
             if len(props) != 5:
                 raise FormatError("ppmd: properties must be 5 bytes")
             order, mem = struct.unpack("<BI", props)
+            if outsize > len(data) * 100000 + 65536:
+                raise FormatError("ppmd: declared unpack size %d implausible for %d packed bytes" % (outsize, len(data)))
+            if not 2 <= order <= 64 or not (1 << 11) <= mem <= 0xFFFFFFFF - 36:
+                raise FormatError("ppmd: order/memory property out of range")
             d = _ppmd.Ppmd7Decoder(order, mem)
             out, tries = (d.decode(bytes(data), outsize) if outsize else b""), 0
             while len(out) < outsize and tries < 8:  # range decoder look-ahead past end of input
@@ -292,7 +298,13 @@ def decode(method: str, props, data: bytes, outsize: int, password=None, padded:
         if name == "brotli":
             data, out = bytes(data), b""
             if data[:4] != b"\x50\x2a\x4d\x18":
-                return _exact(_brotli.decompress(data), outsize, name), None
+                d = _brotli.Decompressor()
+                out = d.process(data)
+                if not d.is_finished():
+                    err = FormatError("brotli: stream is not terminated (no final block)")
+                    err.partial = out
+                    raise err
+                return _exact(out, outsize, name), None
             while data[:4] == b"\x50\x2a\x4d\x18":  # brotli-mt framing used by 7-Zip-zstd: skippable frame + chunk
                 if len(data) < 16 or data[4:8] != b"\x08\0\0\0":
                     raise FormatError("brotli: bad brotli-mt frame header")
